@@ -375,6 +375,27 @@ def r16_7(ctx: Ctx, rep: Report) -> None:
                 inp=f"ace.{attr.lstrip('_')}.note = 'x'; ace.port_nr = True; ace.{attr.lstrip('_')}.note == ''",
             )
     rep.floor(6, "field objects rebuilt by Ace.line setter")
+    # elsewhere in the class a field object is rewritten in place (`self._dstaddr.line = "any"`), never replaced: the
+    # re-initialisation that follows exports the identifier of whatever object is there
+    for g in ls.cls.all_funcs():
+        if g is ls or g.name == "__init__":
+            continue
+        for n in own_nodes(g.node):
+            if not (isinstance(n, ast.Assign) and isinstance(n.targets[0], ast.Attribute) and src(n.targets[0].value) == "self" and isinstance(n.value, ast.Call)):
+                continue
+            attr = n.targets[0].attr
+            t = ctx.types.attr_type(ls.cls, attr)
+            if not any(c.is_subclass_of(base) for c in classes_of(t)):
+                continue
+            callee = ctx.prog.resolve_name(g.module, n.value.func.id) if isinstance(n.value.func, ast.Name) else None
+            if not (isinstance(callee, Class) and callee.is_subclass_of(base)):
+                continue
+            rep.instance()
+            kws = {k.arg for k in n.value.keywords}
+            if {"uuid", "note"} <= kws and all(attr in src(k.value) for k in n.value.keywords if k.arg in ("uuid", "note")):
+                rep.ok(f"{g.qualname}: {attr}", "the new field object receives uuid and note of the one it replaces", where=where(g, n))
+            else:
+                rep.violation(g.qualname, snippet(n), f"the field object {attr} is replaced by a fresh one outside the constructor and the line setter: its identifier and note are lost (the re-initialisation that follows exports the new object's)", where(g, n), inp=f"ace.{attr.lstrip('_')}.note = 'x'; ace.type = 'standard'; ace.{attr.lstrip('_')}.note == ''")
 
 
 def _stamps(f: Func) -> Dict[str, ast.AST]:
@@ -495,6 +516,37 @@ def nested_data_plumbing(ctx: Ctx, rep: Report, rid: str = "R16.13") -> None:
     rep.floor(2, "nested field objects rebuilt from their exported data")
 
 
+def dict_builders_pass_everything(ctx: Ctx, rep: Report, rid: str = "R16.14") -> None:
+    """A builder that turns an exported dict into an object (`_dict_to_*`, taking **kwargs) hands the whole dict to the
+    constructor (or to a sibling builder) on every return: a builder that passes the text alone drops note and uuid."""
+    rep.rule(rid)
+    base = ctx.cls("Base")
+    n = 0
+    for f in ctx.prog.funcs:
+        if not f.name.startswith("_dict_to") or f.node.args.kwarg is None or f.cls is None:
+            continue
+        kw = f.node.args.kwarg.arg
+        n += 1
+        for r in own_nodes(f.node):
+            if not isinstance(r, ast.Return) or r.value is None or (isinstance(r.value, ast.Constant) and r.value.value is None):
+                continue
+            rep.instance()
+            v = r.value
+            whole = isinstance(v, ast.Call) and any(k.arg is None and isinstance(k.value, ast.Name) and k.value.id == kw for k in v.keywords)
+            target_ok = False
+            if isinstance(v, ast.Call):
+                if isinstance(v.func, ast.Name):
+                    c = ctx.prog.resolve_name(f.module, v.func.id)
+                    target_ok = isinstance(c, Class) and c.is_subclass_of(base)
+                elif isinstance(v.func, ast.Attribute) and src(v.func.value) == "self" and v.func.attr.startswith("_dict_to"):
+                    target_ok = True
+            if whole and target_ok:
+                rep.ok(f"{f.qualname}: {snippet(v, 40)}", f"receives **{kw}", where=where(f, r))
+            else:
+                rep.violation(f.qualname, snippet(r), f"the object is not built from the whole exported dict (**{kw}): whatever the text does not carry - note, uuid - is dropped on copy() and on every re-initialising switch of the container", where(f, r), inp="acl with a Remark carrying a note; acl.copy()")
+    rep.floor(2, "dict -> object builders") if n else rep.note(f"{rid} no _dict_to_* builder in the package")
+
+
 def empty_group_dispatch(ctx: Ctx, rep: Report, rid: str = "R16.12") -> None:
     """The exported dict of a group is told from the exported dict of an ACE by the *presence* of its item list, not by
     its truth: an emptied group exports items == [] and must come back as a group (copy(), re-initialisation)."""
@@ -593,6 +645,14 @@ def run(ctx: Ctx, rep: Report, tier: str) -> None:
     adoption_rule(ctx, rep, rid="R16.6")
     r16_8(ctx, rep)
     settings_propagation(ctx, rep)
+    dict_builders_pass_everything(ctx, rep)
+    # R16.15 premise: the exported line is read back to the same data: every selectable port name is in the splitter's
+    # vocabulary (C09 R09.5)
+    from .c09 import splitter_vocabulary
+
+    sub9 = Report("C16")
+    splitter_vocabulary(ctx, sub9, "R09.5")
+    rep.absorb(sub9, "R16.15")
     from .c01 import field_isolation
 
     field_isolation(ctx, rep, "R16.10")
